@@ -177,7 +177,6 @@ class Built:
         self.attrs = build_attrs(self.cfg, self.neighbor, resolve_attr(case))
         self.attr_def = len(self.attrs.pack_attribute(self.neg, True))
         self.attr_nodef = len(self.attrs.pack_attribute(self.neg, False))
-        nhs: dict[str, int] = {}
         self.anns = []  # (id, spec, nlri, nexthop IP, nh text)
         self.wds = []
         nid = 0
@@ -188,7 +187,7 @@ class Built:
         for fam, mask, value, pathid in case['wds']:
             nid += 1
             self.wds.append((nid, (fam, mask, value, pathid), make_nlri(fam, mask, value, pathid), None, None))
-        self.nh_id: dict[str, int] = nhs
+        self.nh_ids: dict[str, int] = {}  # next-hop text -> id, filled by model_line()
         self.collection = UpdateCollection([RoutedNLRI(a[2], a[3]) for a in self.anns], [w[2] for w in self.wds], self.attrs)
 
     # ---- the model's input (sizes and classification measured on the real objects)
